@@ -1,7 +1,7 @@
 import Tcs.Proofs.HandlerTie.ClientId
 import Tcs.Proofs.HandlerTie.GetChild
 import Tcs.Proofs.HandlerTie.GetSnap
-import Tcs.Proofs.HandlerTie.AddVersion
+import Tcs.Proofs.HandlerTie.AddVersionExact
 import Tcs.Proofs.HandlerTie.AddSnapshot
 import Tcs.Proofs.HandlerTie.Routes
 namespace Tcs
